@@ -479,6 +479,17 @@ func (txmp *TxMempool) addNewTransaction(wtx *WrappedTx, checkTxRes *abci.Respon
 		return
 	}
 
+	// The cache normally filters re-submissions, but it can have evicted a transaction that
+	// is still in the pool (cache smaller than its working set, disabled, or reset by Flush
+	// while this check was in flight): never insert a transaction twice.
+	if elt, ok := txmp.txByKey[wtx.tx.Key()]; ok {
+		w := elt.Value.(*WrappedTx)
+		for id := range wtx.peers {
+			w.SetPeer(id)
+		}
+		return
+	}
+
 	priority := checkTxRes.Priority
 	sender := checkTxRes.Sender
 
